@@ -1,5 +1,6 @@
 """C12 -- Fourier filters are the documented radial low/high/band-pass gains"""
 from .common import *
+from . import maskmodel
 from .maskmodel import *
 
 TITLE = "Fourier filters are the documented radial low/high/band-pass gains"
@@ -258,6 +259,15 @@ def o125(ctx):
     m, fn = ctx.prog.func(q)
     calls = [n for n in ast.walk(fn) if isinstance(n, ast.Call) and (ctx.prog.resolve(m, n.func) or "").endswith("filters.gaussian")]
     if len(calls) != 1:
+        # another Gaussian routine: its border handling still decides whether the core of a solid touching a face stays 1
+        other = [n for n in ast.walk(fn) if isinstance(n, ast.Call) and (ctx.prog.resolve(m, n.func) or "").split(".")[-1] in ("gaussian_filter", "gaussian")]
+        for c_ in other:
+            md = kwarg(c_, "mode")
+            if isinstance(md, ast.Constant) and md.value in ("constant", "wrap"):
+                ctx.count(1)
+                ctx.finding(q, c_, f"the Gaussian runs with mode={md.value!r}: values from outside the box (zeros / the opposite face) are blurred into the "
+                            "mask, so the core of a solid that touches a face drops below 1 (the default replicates the border)", c_, m)
+                return
         raise Unsupported("filters.gaussian call not found in add_gaussian", fn)
     c = calls[0]
     default = inspect.signature(filters.gaussian).parameters["truncate"].default
@@ -281,6 +291,8 @@ def _obligations():
         Obligation("O12.1", "hard-edged gains: lowpass 1 iff |k| <= cutoff, highpass complement, bandpass difference; linear/real/shift-commuting", o121, floor=360),
         Obligation("O12.2", "soft-edged variants use the same pipeline, caller's gaussian, edge blur, input shape, default centre", o122, floor=10),
         Obligation("O12.3", "resolution2pixels = round(edge*px/res), pixels2resolution, get_filter_radius and cutoff plumbing", o123, floor=7),
+        Obligation("O12.6", "default centre of the transfer sphere = box // 2 per axis (get_correct_format); radius passed through preprocess_params unchanged "
+                            "unless the blur goes outwards", lambda ctx: (maskmodel.o_get_correct_format(ctx), maskmodel.o_preprocess_params(ctx)), floor=13),
         Obligation("O12.5", "Gaussian edge runs with the installed 4-sigma truncation and the requested sigma", o125, floor=2),
     ]
 
